@@ -1,5 +1,120 @@
 import JF.Driver.Core
+import JF.Model.Thinning
+/-
+Line protocol of component `thin` (model `JF.Model.Thinning`, binary64 reading).
+
+  decide <b> <q> <draw>            -> <confirmLeaf> <warns b q> <confirmComposite (max(0.0,q)) draw> <warns b max(0.0,q)>
+  uniform <b> <r>                  -> bits of CPython's `uniform(0, b)` for `random() = r`
+  summed <n> bd.. <m> q..          -> <Σ max(0.0,bd)> <Σ q> <max(0.0, Σ q)>
+  bound <k> <c1> <c2> <d> <sx> <sy> <sz> <speed>   -> bits of the 1/r bound's derivative
+  send <kind> <useCharge> <L> <tiny> <etq> <etr> <nroots> ROOT* <hasTarget> [ROOT] <guardOk> <b>
+       <nb> bd.. <nq> q.. <nrows> {<len> p..}* <d|r> <draw> <idlen> id..
+     UNIT = <idlen> id.. <dim> pos.. <charge> <hasVel> [<dim> vel.. <tq> <tr>]
+     ROOT = UNIT <weight> <nchildren> {UNIT <weight>}*
+     -> err:<Exc> | none | ok <confirmed> <warned> G<bound handed to uniform|-> C <n> CALL* I <n> INSERT* S STATE
+-/
 namespace JF.Driver
-/-- component `thin` (stub until its model is written) -/
-def thinComp : Comp := Comp.pure fun _ => "unimplemented"
+open JF JF.Thin
+
+abbrev P := StateT (List String) Option
+
+private def tok : P String := fun s => match s with
+  | [] => none
+  | t :: r => some (t, r)
+private def pf : P Float := do return fl (← tok)
+private def pn : P Nat := do return nat! (← tok)
+private def pb : P Bool := do return (← tok) == "1"
+private def rep {β : Type} (n : Nat) (p : P β) : P (List β) :=
+  match n with
+  | 0 => pure []
+  | n + 1 => do let x ← p; let xs ← rep n p; return x :: xs
+private def plist {β : Type} (p : P β) : P (List β) := do let n ← pn; rep n p
+
+private def punit : P (LUnit Float) := do
+  let id ← plist pn
+  let pos ← plist pf
+  let ch ← pf
+  let hv ← pb
+  if hv then
+    let v ← plist pf
+    let q ← pf
+    let r ← pf
+    return ⟨id, pos, ch, some v, some ⟨q, r⟩⟩
+  else return ⟨id, pos, ch, none, none⟩
+
+private def proot : P (CNode Float) := do
+  let u ← punit
+  let w ← pf
+  let cs ← plist (do let cu ← punit; let cw ← pf; return (cu, cw))
+  return ⟨u, w, cs⟩
+
+private def showList (l : List Float) : List String := toString l.length :: l.map bits
+private def showIds (l : List Nat) : List String := toString l.length :: l.map toString
+
+private def showUnit (u : LUnit Float) : List String :=
+  ["U"] ++ showIds u.id ++ showList u.pos ++
+  (match u.vel with | some v => "V" :: showList v | none => ["N"]) ++
+  (match u.ts with | some t => ["T", bits t.q, bits t.r] | none => ["N"])
+
+private def showState (st : List (CNode Float)) : List String :=
+  st.flatMap fun r => ["R", toString r.children.length] ++ showUnit r.unit ++ r.children.flatMap fun cw => showUnit cw.1
+
+private def showRes : Res Float → String
+  | .err t => "err:" ++ t
+  | .invalid => "none"
+  | .out st cf w calls ins uni =>
+    joinSp (["ok", b01 cf, b01 w, (match uni with | some b => "G" ++ bits b | none => "G-"), "C", toString calls.length] ++
+      calls.flatMap (fun c => [c.kind] ++ showList c.vel ++ showList c.sep ++ showList c.charges) ++
+      ["I", toString ins.length] ++
+      ins.flatMap (fun i => [bits i.1] ++ showIds i.2.1 ++ [b01 i.2.2]) ++
+      ["S"] ++ showState st)
+
+private def psend : P String := do
+  let kind ← pn
+  let useCharge ← pb
+  let L ← pf
+  let tiny ← pf
+  let etq ← pf
+  let etr ← pf
+  let st ← plist proot
+  let hasT ← pb
+  let target ← (if hasT then (do let r ← proot; return some r) else pure none)
+  let guardOk ← pb
+  let b ← pf
+  let bds ← plist pf
+  let qs ← plist pf
+  let pairs ← plist (plist pf)
+  let mode ← tok
+  let dv ← pf
+  let nextId ← plist pn
+  let dr : Draw Float := if mode == "r" then .unit dv else .value dv
+  let c : Consts Float := ⟨L, tiny⟩
+  let et : Time Float := ⟨etq, etr⟩
+  if kind ≤ 3 then
+    return showRes (sendLeaf Ops.float c kind useCharge et st target guardOk b (qs.headD 0.0) dr)
+  else
+    return showRes (sendComposite Ops.float c kind useCharge et st target guardOk b bds qs pairs dr nextId)
+
+private def pow32 (x : Float) : Float := Float.pow x (3.0 / 2.0)
+
+def thinComp : Comp := Comp.pure fun
+  | ["decide", b, q, d] =>
+      let b := fl b; let q := fl q; let d := fl d
+      let e := pymax0 Ops.float q
+      joinSp [b01 (confirmLeaf Ops.float q d), b01 (warns Ops.float b q), b01 (confirmComposite e d),
+              b01 (warns Ops.float b e)]
+  | ["uniform", b, r] => bits (pyUniform (Ops.float.ofInt 0) (fl b) (fl r))
+  | ["bound", k, c1, c2, d, sx, sy, sz, sp] =>
+      bits (boundDeriv pow32 (fl k) (fl c1) (fl c2) (nat! d) (fl sx, fl sy, fl sz) (fl sp))
+  | "summed" :: rest =>
+      match (do let bds ← plist pf; let qs ← plist pf; return (bds, qs) : P _).run rest with
+      | some ((bds, qs), []) =>
+        let fd := factorDerivative Ops.float qs
+        joinSp [bits (summedBound Ops.float bds), bits fd, bits (pymax0 Ops.float fd)]
+      | _ => "bad-args"
+  | "send" :: rest =>
+      match psend.run rest with
+      | some (r, []) => r
+      | _ => "bad-args"
+  | _ => "bad-op"
 end JF.Driver
